@@ -473,12 +473,13 @@ def _bpm_shapes(tier):
         uw = n + 64 * ((m + 63) // 64) + 70   # generous: text columns + at most one block of padding, and then some
         d = dict(KV_M=m, KV_N=n, KV_SIGMA=sig)
         if m >= 16:
+            d['KV_FIXCODES'] = '{12,1}'   # concrete renaming for the long shapes (see the harness)
             d['KV_FREE'] = 5      # 6 or 8 free symbols in the thorough tier: > 1800 s for m63_n63 and m64_n66
         out.append(dict(name='m%d_n%d' % (m, n), defs=d, unwind=uw))
     return out
 Q(id='C11.bpm_block', props=['C11', 'C12'], cls='B', harness='c11_bpm_block.c', entry='h_c11_bpm_block', shapes=_bpm_shapes,
   mode='wrap', timeout=1800, funcs=['bpm_block', 'bpm'], trusted=[TRUST_MSG],
-  assumptions=[A_WRAP, 'bounded: pattern 1-4 (thorough 1-6) symbols fully symbolic over 3 symbols; patterns of 63 / 64 symbols (one block, block boundary) with only the last 5 symbols of text and pattern symbolic over 2 symbols; patterns that need two or more blocks (65, 128) exhaust 30 GB and are NOT covered'],
+  assumptions=[A_WRAP, 'bounded: pattern 1-4 (thorough 1-6) symbols fully symbolic over any 3 pairwise different codes of the 13-symbol alphabet (symbolic injective renaming); patterns of 63 / 64 symbols (one block, block boundary) with only the last 5 symbols of text and pattern symbolic over the two codes 12 and 1; patterns that need two or more blocks (65, 128) exhaust 30 GB and are NOT covered'],
   native_srcs=['lib/src/tldevel.c'])
 
 # =========================================================================== C16 lifecycle
